@@ -1629,7 +1629,12 @@ impl TInputProtocol for TCompactInputProtocol<&mut Bytes> {
     #[inline]
     fn read_bool(&mut self) -> Result<bool, ThriftException> {
         match self.pending_read_bool_value.take() {
-            Some(b) => Ok(b),
+            Some(b) => {
+                // the value of a bool field lives in its header: reading it also
+                // settles the header noted by `field_begin_len`
+                self.pending_read_bool_field_identifier = None;
+                Ok(b)
+            }
             None => {
                 let b: TCompactType = self.read_byte()?.try_into()?;
                 match b {
